@@ -282,7 +282,7 @@ def c17():
         "theorems": ["C17_accept_iff", "C17_same_behaviour", "C17_frame", "C17_reset",
                      "C17_reset_behaves_fresh", "C17_nonvacuous"],
         "model_files": ["Model/ObsCfg.v"],
-        "suites": [suite_config.suite_config],
+        "suites": [suite_config.suite_config, suite_config.suite_reset],
         "search": suite_config.search_c17,
         "replay": suite_config.replay_c17,
         "level": "proof",
